@@ -1,9 +1,13 @@
-(* ObjGraphWalkProofs: the memoised walk terminates on fuel |U|+1 and produces an isomorphic copy.
-   Invariant of the DFS (over the whole recursion, cycles and sharing included):
-     - memo values are below the allocation counter, the memo is injective, every allocated address is a memo value;
-     - on return of [walk a], every entry registered during the call is DONE: its destination object has been
-       written and is the image of the source object under the memo;
-     - destination addresses below the counter at call time are not touched by the call. *)
+(* ObjGraphWalkProofs: the memoised walk terminates on fuel |U|+1 and, unless a memo hit handed out a mapping object that was
+   still in progress ([bad]), produces a copy that is isomorphic up to the (class, scalars) transformation of the direction.
+   Invariant of the DFS (over the whole recursion, cycles, sharing, late replacement of memo entries included):
+     - memo values are below the allocation counter and the memo is injective; keys are pinned (keep-alive) and lie in Q;
+       keys in progress are memo keys;
+     - on return of [walk a] the memo entries that existed at call time are unchanged (the only entry ever overwritten is
+       the one of the object being finished), in-progress set and older destination objects are untouched;
+     - if no bad hit happened, every entry registered during the call is DONE: its destination object is the image of the
+       source object under the memo, and each of its references went through an entry that is FINAL (not an in-progress
+       mapping object), so the later overwriting of such entries cannot invalidate it. *)
 From Coq Require Import List ZArith Bool Lia Arith PeanoNat.
 From Krrood Require Import Orm.ObjGraph Orm.Iso Orm.ObjGraphWalk.
 Import ListNotations.
@@ -32,6 +36,17 @@ Qed.
 Lemma filter_len_all {A} (p : A -> bool) l : length (filter p l) <= length l.
 Proof. induction l as [|x l IH]; simpl; auto. destruct (p x); simpl; lia. Qed.
 
+Lemma remove_addr_notin a l : ~ In a l -> remove_addr a l = l.
+Proof.
+  induction l as [|x l IH]; simpl; intros H; auto.
+  destruct (Nat.eqb x a) eqn:E.
+  - apply Nat.eqb_eq in E. subst. exfalso. apply H. now left.
+  - f_equal. apply IH. intros Hin. apply H. now right.
+Qed.
+
+Lemma remove_addr_head a l : ~ In a l -> remove_addr a (a :: l) = l.
+Proof. intros H. simpl. rewrite Nat.eqb_refl. now apply remove_addr_notin. Qed.
+
 Section Proofs.
   Variable P : params.
   Variable src : heap.
@@ -42,63 +57,88 @@ Section Proofs.
   Hypothesis HQ : forall a, Q a -> exists o, src a = Some o /\
     forall t ks k, In (t, ks) (oflds o) -> In k ks -> Q k.
   Hypothesis HQU : forall a, Q a -> In a U.
-  Hypothesis Hnolate : forall a o, src a = Some o -> p_late P (p_cmap P (ocls o)) = None.
 
   Definition unmemo (s : st) : list addr :=
     filter (fun x => match mlook x s with None => true | Some _ => false end) U.
 
+  (* no object of the source heap is a mapping object (no late replacement ever happens) *)
+  Definition nolate_src : Prop := forall x o, Q x -> src x = Some o -> is_late P o = false.
+  (* ... and no temporary allocations either: every allocated address is the memo value of its object *)
+  Definition plain : Prop := nolate_src /\ forall x o, Q x -> src x = Some o -> p_extra P (ocls o) = 0.
+
   Definition Inv (s : st) : Prop :=
     (forall x y, mlook x s = Some y -> y < nxt s) /\
     (forall x x' y, mlook x s = Some y -> mlook x' s = Some y -> x = x') /\
-    (forall y, y < nxt s -> exists x, mlook x s = Some y) /\
-    (forall y ob, dst s y = Some ob -> exists x o, src x = Some o /\ ocls ob = p_cmap P (ocls o)) /\
+    (plain -> forall y, y < nxt s -> exists x, mlook x s = Some y) /\
     (forall x y, mlook x s = Some y -> Q x) /\
-    (p_keep P = true -> forall x y, mlook x s = Some y -> In x (keep s)).   (* keep-alive: every memo key is pinned *)
+    (p_keep P = true -> forall x y, mlook x s = Some y -> In x (keep s)) /\   (* keep-alive: every memo key is pinned *)
+    (forall x, In x (prog s) -> mlook x s <> None).
 
+  (* the entry of k is final: k is not a mapping object still in progress *)
+  Definition fin (s : st) (k : addr) : Prop := memb k (prog s) && lateb P src k = false.
   Definition krel (s : st) (k d : addr) : Prop := mlook k s = Some d.
+  Definition krelf (s : st) (k d : addr) : Prop := mlook k s = Some d /\ fin s k.
+
+  (* class and scalars of the finished object *)
+  Definition fobj (c : Z) (sc : list Z) : Z * list Z :=
+    match p_late P c sc with Some cs => cs | None => p_obj P c sc end.
 
   Definition done (s : st) (x y : addr) : Prop :=
     exists o fl', src x = Some o /\
-      dst s y = Some (mkObj (p_cmap P (ocls o)) (oscal o) fl') /\
-      Forall2 (fld_rel (krel s)) (oflds o) fl'.
+      dst s y = Some (mkObj (fst (fobj (ocls o) (oscal o))) (snd (fobj (ocls o) (oscal o))) fl') /\
+      Forall2 (fld_rel (krelf s)) (oflds o) fl'.
 
   Definition ext (s s' : st) : Prop :=
     nxt s <= nxt s' /\
     (forall x y, mlook x s = Some y -> mlook x s' = Some y) /\
     (forall x y, mlook x s' = Some y -> mlook x s = None -> nxt s <= y) /\
     (forall y, y < nxt s -> dst s' y = dst s y) /\
-    (forall x y, mlook x s' = Some y -> mlook x s = None -> done s' x y).
+    prog s' = prog s /\
+    (bad s = true -> bad s' = true) /\
+    (nolate_src -> bad s' = bad s) /\
+    (bad s' = false -> forall x y, mlook x s' = Some y -> mlook x s = None -> done s' x y).
+
+  Lemma krelf_mono s s' k d : (forall a b, mlook a s = Some b -> mlook a s' = Some b) -> prog s' = prog s ->
+    krelf s k d -> krelf s' k d.
+  Proof. intros Hm Hp [H1 H2]. split; auto. unfold fin in *. now rewrite Hp. Qed.
 
   Lemma done_mono s s' x y :
     done s x y -> y < nxt s ->
-    (forall a b, mlook a s = Some b -> mlook a s' = Some b) ->
+    (forall k d, krelf s k d -> krelf s' k d) ->
     (forall z, z < nxt s -> dst s' z = dst s z) -> done s' x y.
   Proof.
     intros [o [fl' [Ho [Hd Hf]]]] Hy Hm Hfr. exists o, fl'. repeat split; auto.
     - rewrite Hfr; auto.
     - eapply Forall2_impl; [|exact Hf]. intros f f' [Ht Hk]. split; auto.
-      eapply Forall2_impl; [|exact Hk]. unfold krel. auto.
+      eapply Forall2_impl; [|exact Hk]. auto.
   Qed.
 
   Lemma ext_refl s : ext s s.
   Proof.
     repeat split; auto.
     - intros x y H1 H2. congruence.
-    - intros x y H1 H2. congruence.
+    - intros _ x y H1 H2. congruence.
+  Qed.
+
+  Lemma ext_bad_false s s' : ext s s' -> bad s' = false -> bad s = false.
+  Proof.
+    intros [_ [_ [_ [_ [_ [B _]]]]]] H. destruct (bad s); auto. specialize (B eq_refl). congruence.
   Qed.
 
   Lemma ext_trans s s1 s2 : Inv s1 -> ext s s1 -> ext s1 s2 -> ext s s2.
   Proof.
-    intros [I1 _] [A1 [A2 [A3 [A4 A5]]]] [B1 [B2 [B3 [B4 B5]]]]. repeat split.
-    - lia.
-    - auto.
+    intros [I1 _] X1 X2. pose proof (ext_bad_false _ _ X2) as Hb12.
+    destruct X1 as [A1 [A2 [A3 [A4 [A5 [A6 [A7 A8]]]]]]]. destruct X2 as [B1 [B2 [B3 [B4 [B5 [B6 [B7 B8]]]]]]].
+    split; [lia|]. split; [auto|]. split; [|split; [|split; [congruence|split; [auto|split]]]].
     - intros x y H2 H0. destruct (mlook x s1) as [y1|] eqn:E1.
       + rewrite (B2 _ _ E1) in H2. inversion H2; subst. eauto.
       + specialize (B3 _ _ H2 E1). lia.
     - intros y Hy. rewrite B4 by lia. auto.
-    - intros x y H2 H0. destruct (mlook x s1) as [y1|] eqn:E1.
+    - intros Hn. rewrite B7, A7; auto.
+    - intros Hbad x y H2 H0. destruct (mlook x s1) as [y1|] eqn:E1.
       + pose proof (B2 _ _ E1) as H2'. rewrite H2' in H2. inversion H2; subst y1.
-        eapply done_mono; eauto.
+        eapply done_mono; [apply A8; auto| eapply I1; eauto | | exact B4].
+        intros k d. apply krelf_mono; auto.
       + eauto.
   Qed.
 
@@ -109,9 +149,9 @@ Section Proofs.
     destruct (mlook x s) as [y|] eqn:E; auto. rewrite (H _ _ E) in Hx. discriminate.
   Qed.
 
-  (* what a successful call establishes *)
+  (* what a call establishes *)
   Definition post (a : addr) (s : st) (r : option (addr * st)) : Prop :=
-    exists d s', r = Some (d, s') /\ ext s s' /\ Inv s' /\ mlook a s' = Some d.
+    exists d s', r = Some (d, s') /\ ext s s' /\ Inv s' /\ (bad s' = false -> krelf s' a d).
 
   Section Lists.
     Variable rec : addr -> st -> option (addr * st).
@@ -119,7 +159,8 @@ Section Proofs.
     Hypothesis Hrec : forall a s, Inv s -> Q a -> length (unmemo s) < n -> post a s (rec a s).
 
     Lemma walk_list_ok l : forall s, Inv s -> (forall k, In k l -> Q k) -> length (unmemo s) < n ->
-      exists ds s', walk_list rec l s = Some (ds, s') /\ ext s s' /\ Inv s' /\ Forall2 (krel s') l ds.
+      exists ds s', walk_list rec l s = Some (ds, s') /\ ext s s' /\ Inv s' /\
+        (bad s' = false -> Forall2 (krelf s') l ds).
     Proof.
       induction l as [|k t IH]; intros s HI HU Hn; simpl.
       - exists [], s. split; auto. split; [apply ext_refl|]. split; auto.
@@ -129,12 +170,14 @@ Section Proofs.
         { pose proof (unmemo_le s s1 (proj1 (proj2 X1))). lia. }
         destruct (IH s1 I1 (fun k' Hk' => HU k' (or_intror Hk')) Hn1) as [ds [s2 [E2 [X2 [I2 F2]]]]].
         rewrite E2. exists (d :: ds), s2. split; auto. split; [apply (ext_trans s s1 s2 I1 X1 X2)|]. split; auto.
-        constructor; auto. unfold krel. apply (proj1 (proj2 X2)). exact M1.
+        intros Hb. constructor; auto.
+        apply (krelf_mono s1 s2); [apply X2|apply X2|]. apply M1. eapply ext_bad_false; eauto.
     Qed.
 
     Lemma walk_flds_ok fl : forall s, Inv s -> (forall t ks k, In (t, ks) fl -> In k ks -> Q k) ->
       length (unmemo s) < n ->
-      exists fl' s', walk_flds rec fl s = Some (fl', s') /\ ext s s' /\ Inv s' /\ Forall2 (fld_rel (krel s')) fl fl'.
+      exists fl' s', walk_flds rec fl s = Some (fl', s') /\ ext s s' /\ Inv s' /\
+        (bad s' = false -> Forall2 (fld_rel (krelf s')) fl fl').
     Proof.
       induction fl as [|[t l] rest IH]; intros s HI HU Hn; simpl.
       - exists [], s. split; auto. split; [apply ext_refl|]. split; auto.
@@ -144,15 +187,16 @@ Section Proofs.
         { pose proof (unmemo_le s s1 (proj1 (proj2 X1))). lia. }
         destruct (IH s1 I1 (fun t' ks k Hf Hk => HU t' ks k (or_intror Hf) Hk) Hn1) as [fs [s2 [E2 [X2 [I2 F2]]]]].
         rewrite E2. exists ((t, ds) :: fs), s2. split; auto. split; [apply (ext_trans s s1 s2 I1 X1 X2)|]. split; auto.
-        constructor; auto. split; auto. simpl.
-        eapply Forall2_impl; [|exact F1]. unfold krel. intros a b. apply (proj1 (proj2 X2)).
+        intros Hb. constructor; auto. split; auto. simpl.
+        eapply Forall2_impl; [|apply F1; eapply ext_bad_false; eauto].
+        intros a b. apply krelf_mono; apply X2.
     Qed.
   End Lists.
 
-  Lemma refix_list_id s l l' : Forall2 (krel s) l l' -> refix_list s l l' = l'.
-  Proof. induction 1; simpl; auto. unfold krel in H. rewrite H. congruence. Qed.
+  Lemma refix_list_id s l l' : Forall2 (krelf s) l l' -> refix_list s l l' = l'.
+  Proof. induction 1 as [|k d l l' [H _] _ IH]; simpl; auto. rewrite H. congruence. Qed.
 
-  Lemma refix_flds_id s fl fl' : Forall2 (fld_rel (krel s)) fl fl' -> refix_flds s fl fl' = fl'.
+  Lemma refix_flds_id s fl fl' : Forall2 (fld_rel (krelf s)) fl fl' -> refix_flds s fl fl' = fl'.
   Proof.
     induction 1 as [|[t l] [t' l'] r r' [Ht Hk] _ IH]; simpl; auto. simpl in *.
     rewrite (refix_list_id _ _ _ Hk). rewrite IH. reflexivity.
@@ -165,16 +209,27 @@ Section Proofs.
   Proof.
     induction fuel as [|f IH]; intros a s HI Ha Hn; [lia|].
     simpl. destruct (mlook a s) as [d|] eqn:Em.
-    - exists d, s. split; auto. split; [apply ext_refl|]. split; auto.
+    - (* memo hit *)
+      eexists. eexists. split; [reflexivity|]. split; [|split].
+      + split; [simpl; lia|]. split; [auto|]. split; [intros x y H1 H2; unfold mlook in *; simpl in *; congruence|].
+        split; [auto|]. split; [reflexivity|]. split; [simpl; intros ->; reflexivity|]. split.
+        * intros Hnl. simpl. unfold lateb. destruct (HQ a Ha) as [o [Ho _]]. rewrite Ho, (Hnl _ _ Ha Ho).
+          now rewrite andb_false_r, orb_false_r.
+        * intros _ x y H1 H2. unfold mlook in *. simpl in *. congruence.
+      + exact HI.
+      + simpl. intros Hb. apply orb_false_iff in Hb. destruct Hb as [_ Hb]. split; [exact Em|exact Hb].
     - destruct (HQ a Ha) as [o [Ho Hk]]. rewrite Ho.
-      set (d := nxt s). set (s1 := mkSt ((a, d) :: memo s) (dst s) (S d) (if p_keep P then a :: keep s else keep s)).
-      destruct HI as [I1 [I2 [I3 [I4 [I5 I6]]]]].
+      set (d := nxt s).
+      set (s1 := mkSt ((a, d) :: memo s) (dst s) (S d) (if p_keep P then a :: keep s else keep s) (a :: prog s) (bad s)).
+      destruct HI as [I1 [I2 [I3 [I5 [I6 I7]]]]].
       assert (M1 : forall x, x <> a -> mlook x s1 = mlook x s).
       { intros x Hx. unfold mlook, s1. simpl memo. apply assoc_cons_ne. exact Hx. }
       assert (M1a : mlook a s1 = Some d).
       { unfold mlook, s1. simpl. now rewrite Nat.eqb_refl. }
+      assert (Hnp : ~ In a (prog s)).
+      { intros Hin. apply (I7 _ Hin). exact Em. }
       assert (HI1 : Inv s1).
-      { repeat split.
+      { split; [|split; [|split; [|split; [|split]]]].
         - intros x y H. destruct (Nat.eq_dec x a) as [->|Hx].
           + rewrite M1a in H. inversion H; subst. simpl. lia.
           + rewrite M1 in H by auto. apply I1 in H. simpl. unfold d. lia.
@@ -182,14 +237,15 @@ Section Proofs.
           + rewrite M1a in H. inversion H; subst y. rewrite M1 in H' by auto. apply I1 in H'. unfold d in H'. lia.
           + rewrite M1a in H'. inversion H'; subst y. rewrite M1 in H by auto. apply I1 in H. unfold d in H. lia.
           + rewrite M1 in H, H' by auto. eauto.
-        - intros y Hy. simpl in Hy. destruct (Nat.eq_dec y d) as [->|Hyd].
+        - intros Hpl y Hy. simpl in Hy. destruct (Nat.eq_dec y d) as [->|Hyd].
           + exists a. exact M1a.
-          + destruct (I3 y) as [x Hx]; [unfold d in *; lia|]. exists x. rewrite M1; auto.
+          + destruct (I3 Hpl y) as [x Hx]; [unfold d in *; lia|]. exists x. rewrite M1; auto.
             intros ->. congruence.
-        - intros y ob Hy. simpl in Hy. eauto.
         - intros x y H. destruct (Nat.eq_dec x a) as [->|Hx]; auto. rewrite M1 in H by auto. eauto.
         - intros Hk' x y H. unfold s1. simpl. rewrite Hk'. destruct (Nat.eq_dec x a) as [->|Hx]; [now left|].
-          right. rewrite M1 in H by auto. eapply I6; eauto. }
+          right. rewrite M1 in H by auto. eapply I6; eauto.
+        - intros x Hx. simpl in Hx. destruct Hx as [<-|Hx]; [rewrite M1a; discriminate|].
+          destruct (Nat.eq_dec x a) as [->|Hxa]; [rewrite M1a; discriminate|]. rewrite M1; auto. }
       assert (Hn1 : length (unmemo s1) < f).
       { assert (length (unmemo s1) < length (unmemo s)); [|lia].
         unfold unmemo. apply filter_len_lt with (a := a).
@@ -199,117 +255,207 @@ Section Proofs.
         - now rewrite M1a. }
       destruct (walk_flds_ok (walk P src f) f IH (oflds o) s1 HI1 Hk Hn1) as [fl [s2 [E2 [X2 [HI2 F2]]]]].
       rewrite E2.
-      assert (Efix : (if p_refix P then refix_flds s2 (oflds o) fl else fl) = fl).
-      { destruct (p_refix P); auto. now apply refix_flds_id. }
-      rewrite Efix. rewrite (Hnolate a o Ho).
-      set (ob := mkObj (p_cmap P (ocls o)) (oscal o) fl).
-      set (s3 := mkSt (memo s2) (upd (dst s2) d ob) (nxt s2) (keep s2)).
-      destruct X2 as [B1 [B2 [B3 [B4 B5]]]].
+      set (fl' := if p_refix P then refix_flds s2 (oflds o) fl else fl).
+      assert (Efix : bad s2 = false -> fl' = fl).
+      { intros Hb. unfold fl'. destruct (p_refix P); auto. apply refix_flds_id. auto. }
+      set (cs := p_obj P (ocls o) (oscal o)).
+      set (n3 := nxt s2 + p_extra P (ocls o)).
+      destruct X2 as [B1 [B2 [B3 [B4 [B5 [B6 [B7 B8]]]]]]].
+      destruct HI2 as [J1 [J2 [J3 [J5 [J6 J7]]]]].
       assert (M2a : mlook a s2 = Some d) by (apply B2; exact M1a).
-      exists d, s3. split; auto. split; [|split].
-      + (* ext s s3 *)
-        repeat split.
-        * simpl in *. unfold d in *. lia.
-        * intros x y H. change (mlook x s2 = Some y). apply B2. rewrite M1; auto. intros ->. congruence.
-        * intros x y H H0. change (mlook x s2 = Some y) in H. destruct (Nat.eq_dec x a) as [->|Hx].
-          -- rewrite M2a in H. inversion H; subst. unfold d. lia.
-          -- assert (nxt s1 <= y) by (apply (B3 x); auto; rewrite M1; auto). simpl in *. unfold d in *. lia.
-        * intros y Hy. unfold s3. simpl. unfold upd. destruct (Nat.eqb y d) eqn:E.
-          -- apply Nat.eqb_eq in E. unfold d in E. lia.
-          -- rewrite B4; auto. simpl. lia.
-        * intros x y H H0. change (mlook x s2 = Some y) in H. destruct (Nat.eq_dec x a) as [->|Hx].
-          -- rewrite M2a in H. inversion H; subst y. exists o, fl. split; auto. split.
-             ++ unfold s3. simpl. unfold upd. now rewrite Nat.eqb_refl.
-             ++ exact F2.
-          -- assert (Hn1' : mlook x s1 = None) by (rewrite M1; auto).
-             pose proof (B3 _ _ H Hn1') as Hge. pose proof (B5 _ _ H Hn1') as [o' [fl' [Ho' [Hd' Hf']]]].
-             exists o', fl'. split; auto. split; auto.
-             unfold s3. simpl. unfold upd. destruct (Nat.eqb y d) eqn:E; auto.
-             apply Nat.eqb_eq in E. simpl in Hge. lia.
-      + destruct HI2 as [J1 [J2 [J3 [J4 J5]]]]. split; [exact J1|]. split; [exact J2|]. split; [exact J3|].
-        split; [|exact J5].
-        intros y ob' Hy. unfold s3 in Hy. simpl in Hy. unfold upd in Hy. destruct (Nat.eqb y d).
-        * inversion Hy; subst ob'. exists a, o. split; auto.
-        * eauto.
-      + exact M2a.
+      assert (Epr : remove_addr a (prog s2) = prog s).
+      { rewrite B5. unfold s1. simpl. now apply remove_addr_head. }
+      assert (Hd1 : d < nxt s2) by (simpl in B1; lia).
+      (* kids of entries that are done in s2 are not the object being finished, when that object is a mapping object *)
+      assert (Hfin_a : lateb P src a = true -> forall k dk, krelf s2 k dk -> k <> a).
+      { intros Hl k dk [_ Hf] ->. unfold fin in Hf. rewrite B5 in Hf. unfold s1 in Hf. simpl in Hf.
+        rewrite Nat.eqb_refl, Hl in Hf. discriminate. }
+      assert (Hfin_mono : forall k, fin s2 k -> memb k (prog s) && lateb P src k = false).
+      { intros k Hf. unfold fin in Hf. rewrite B5 in Hf. unfold s1 in Hf. simpl in Hf.
+        destruct (lateb P src k); [|apply andb_false_r]. rewrite andb_true_r in *.
+        apply orb_false_iff in Hf. apply Hf. }
+      destruct (p_late P (ocls o) (oscal o)) as [cs'|] eqn:El.
+      + (* the allocated object is a mapping object: create_from_dao builds a new one, the memo entry is overwritten *)
+        assert (Hlate : lateb P src a = true) by (unfold lateb, is_late; now rewrite Ho, El).
+        set (s' := mkSt ((a, n3) :: memo s2)
+                        (upd (upd (dst s2) d (mkObj (fst cs) (snd cs) fl')) n3 (mkObj (fst cs') (snd cs') fl'))
+                        (S n3) (keep s2) (remove_addr a (prog s2)) (bad s2)).
+        assert (M3 : forall x, x <> a -> mlook x s' = mlook x s2).
+        { intros x Hx. unfold mlook, s'. simpl memo. apply assoc_cons_ne. exact Hx. }
+        assert (M3a : mlook a s' = Some n3) by (unfold mlook, s'; simpl; now rewrite Nat.eqb_refl).
+        assert (Hkf : forall k dk, krelf s2 k dk -> krelf s' k dk).
+        { intros k dk Hkd. pose proof (Hfin_a Hlate _ _ Hkd) as Hne. destruct Hkd as [H1 H2]. split.
+          - rewrite M3; auto.
+          - unfold fin, s'. simpl prog. rewrite Epr. now apply Hfin_mono. }
+        exists n3, s'. split; auto. split; [|split].
+        * (* ext s s' *)
+          split; [simpl in *; unfold n3, d in *; lia|]. split; [|split; [|split; [|split; [|split; [|split]]]]].
+          -- intros x y H. assert (x <> a) by (intros ->; congruence). rewrite M3; auto. apply B2. rewrite M1; auto.
+          -- intros x y H H0. destruct (Nat.eq_dec x a) as [->|Hx].
+             ++ rewrite M3a in H. inversion H; subst. unfold n3, d in *. simpl in B1. lia.
+             ++ rewrite M3 in H by auto. assert (nxt s1 <= y) by (apply (B3 x); auto; rewrite M1; auto).
+                simpl in *. unfold d in *. lia.
+          -- intros y Hy. unfold s'. simpl. unfold upd.
+             destruct (Nat.eqb y n3) eqn:E; [apply Nat.eqb_eq in E; unfold n3 in E; unfold d in Hd1; lia|].
+             destruct (Nat.eqb y d) eqn:E'; [apply Nat.eqb_eq in E'; unfold d in E'; lia|].
+             rewrite B4; auto. simpl. lia.
+          -- unfold s'. simpl. exact Epr.
+          -- unfold s'. simpl. intros H. apply B6. exact H.
+          -- intros Hnl. exfalso. pose proof (Hnl _ _ Ha Ho) as H. unfold is_late in H. rewrite El in H. discriminate.
+          -- unfold s' at 1. simpl bad. intros Hb x y H H0. destruct (Nat.eq_dec x a) as [->|Hx].
+             ++ rewrite M3a in H. inversion H; subst y. exists o, fl'. split; auto. split.
+                ** unfold s'. simpl. unfold upd. rewrite Nat.eqb_refl. unfold fobj. now rewrite El.
+                ** rewrite (Efix Hb). eapply Forall2_impl; [|apply F2; exact Hb].
+                   intros g g' [Ht Hks]. split; auto. eapply Forall2_impl; [|exact Hks]. exact Hkf.
+             ++ rewrite M3 in H by auto. assert (Hn1' : mlook x s1 = None) by (rewrite M1; auto).
+                pose proof (B3 _ _ H Hn1') as Hge. pose proof (J1 _ _ H) as Hlt.
+                destruct (B8 Hb _ _ H Hn1') as [o' [fl0 [Ho' [Hd' Hf']]]].
+                exists o', fl0. split; auto. split.
+                ** unfold s'. simpl. unfold upd.
+                   destruct (Nat.eqb y n3) eqn:E; [apply Nat.eqb_eq in E; unfold n3 in E; lia|].
+                   destruct (Nat.eqb y d) eqn:E'; [apply Nat.eqb_eq in E'; simpl in Hge; lia|]. exact Hd'.
+                ** eapply Forall2_impl; [|exact Hf']. intros g g' [Ht Hks]. split; auto.
+                   eapply Forall2_impl; [|exact Hks]. exact Hkf.
+        * (* Inv s' *)
+          split; [|split; [|split; [|split; [|split]]]].
+          -- intros x y H. destruct (Nat.eq_dec x a) as [->|Hx].
+             ++ rewrite M3a in H. inversion H; subst. simpl. lia.
+             ++ rewrite M3 in H by auto. apply J1 in H. simpl. unfold n3. lia.
+          -- intros x x' y H H'. destruct (Nat.eq_dec x a) as [->|Hx]; destruct (Nat.eq_dec x' a) as [->|Hx']; auto.
+             ++ rewrite M3a in H. inversion H; subst y. rewrite M3 in H' by auto. apply J1 in H'. unfold n3 in H'. lia.
+             ++ rewrite M3a in H'. inversion H'; subst y. rewrite M3 in H by auto. apply J1 in H. unfold n3 in H. lia.
+             ++ rewrite M3 in H, H' by auto. eauto.
+          -- intros [Hnl _]. exfalso. pose proof (Hnl _ _ Ha Ho) as H. unfold is_late in H. rewrite El in H. discriminate.
+          -- intros x y H. destruct (Nat.eq_dec x a) as [->|Hx]; auto. rewrite M3 in H by auto. eauto.
+          -- intros Hk' x y H. unfold s'. simpl keep. destruct (Nat.eq_dec x a) as [->|Hx].
+             ++ eapply J6; eauto.
+             ++ rewrite M3 in H by auto. eapply J6; eauto.
+          -- intros x Hx. unfold s' in Hx. simpl in Hx. rewrite Epr in Hx.
+             assert (x <> a) by (intros ->; contradiction). rewrite M3; auto.
+             pose proof (I7 _ Hx) as Hm. destruct (mlook x s) as [y|] eqn:E; [|congruence].
+             assert (mlook x s2 = Some y) by (apply B2; rewrite M1; auto). congruence.
+        * intros _. split; [exact M3a|]. unfold fin, s'. simpl prog. rewrite Epr.
+          destruct (memb a (prog s)) eqn:E; auto. apply memb_In in E. contradiction.
+      + (* the allocated object is the result *)
+        set (s' := mkSt (memo s2) (upd (dst s2) d (mkObj (fst cs) (snd cs) fl')) n3 (keep s2) (remove_addr a (prog s2)) (bad s2)).
+        assert (Hkf : forall k dk, krelf s2 k dk -> krelf s' k dk).
+        { intros k dk [H1 H2]. split; [exact H1|]. unfold fin, s'. simpl prog. rewrite Epr. now apply Hfin_mono. }
+        exists d, s'. split; auto. split; [|split].
+        * split; [simpl in *; unfold n3, d in *; lia|]. split; [|split; [|split; [|split; [|split; [|split]]]]].
+          -- intros x y H. change (mlook x s2 = Some y). apply B2. rewrite M1; auto. intros ->. congruence.
+          -- intros x y H H0. change (mlook x s2 = Some y) in H. destruct (Nat.eq_dec x a) as [->|Hx].
+             ++ rewrite M2a in H. inversion H; subst. unfold d. lia.
+             ++ assert (nxt s1 <= y) by (apply (B3 x); auto; rewrite M1; auto). simpl in *. unfold d in *. lia.
+          -- intros y Hy. unfold s'. simpl. unfold upd. destruct (Nat.eqb y d) eqn:E.
+             ++ apply Nat.eqb_eq in E. unfold d in E. lia.
+             ++ rewrite B4; auto. simpl. lia.
+          -- unfold s'. simpl. exact Epr.
+          -- unfold s'. simpl. intros H. apply B6. exact H.
+          -- unfold s'. simpl. intros Hnl. apply (B7 Hnl).
+          -- unfold s' at 1. simpl bad. intros Hb x y H H0. change (mlook x s2 = Some y) in H.
+             destruct (Nat.eq_dec x a) as [->|Hx].
+             ++ rewrite M2a in H. inversion H; subst y. exists o, fl'. split; auto. split.
+                ** unfold s'. simpl. unfold upd. rewrite Nat.eqb_refl. unfold fobj. now rewrite El.
+                ** rewrite (Efix Hb). eapply Forall2_impl; [|apply F2; exact Hb].
+                   intros g g' [Ht Hks]. split; auto. eapply Forall2_impl; [|exact Hks]. exact Hkf.
+             ++ assert (Hn1' : mlook x s1 = None) by (rewrite M1; auto).
+                pose proof (B3 _ _ H Hn1') as Hge.
+                destruct (B8 Hb _ _ H Hn1') as [o' [fl0 [Ho' [Hd' Hf']]]].
+                exists o', fl0. split; auto. split.
+                ** unfold s'. simpl. unfold upd. destruct (Nat.eqb y d) eqn:E; auto.
+                   apply Nat.eqb_eq in E. simpl in Hge. lia.
+                ** eapply Forall2_impl; [|exact Hf']. intros g g' [Ht Hks]. split; auto.
+                   eapply Forall2_impl; [|exact Hks]. exact Hkf.
+        * split; [|split; [|split; [|split; [|split]]]].
+          -- intros x y H. change (mlook x s2 = Some y) in H. apply J1 in H. simpl. unfold n3. lia.
+          -- exact J2.
+          -- intros Hpl y Hy. change (exists x, mlook x s2 = Some y). apply (J3 Hpl). simpl in Hy. unfold n3 in Hy.
+             rewrite (proj2 Hpl _ _ Ha Ho) in Hy. lia.
+          -- exact J5.
+          -- exact J6.
+          -- intros x Hx. unfold s' in Hx. simpl in Hx. rewrite Epr in Hx. change (mlook x s2 <> None).
+             assert (x <> a) by (intros ->; contradiction).
+             pose proof (I7 _ Hx) as Hm. destruct (mlook x s) as [y|] eqn:E; [|congruence].
+             assert (mlook x s2 = Some y) by (apply B2; rewrite M1; auto). congruence.
+        * intros _. split; [exact M2a|]. unfold fin, s'. simpl prog. rewrite Epr.
+          destruct (memb a (prog s)) eqn:E; auto. apply memb_In in E. contradiction.
   Qed.
 
   Lemma Inv_st0 : Inv st0.
   Proof.
-    repeat split; unfold mlook; simpl; intros; try discriminate; lia.
+    repeat split; unfold mlook; simpl; intros; try discriminate; try lia; try contradiction.
   Qed.
 
   Theorem walk_total r : Q r ->
-    exists d s', walk P src (S (length U)) r st0 = Some (d, s') /\ Inv s' /\ mlook r s' = Some d /\
-      (forall x y, mlook x s' = Some y -> done s' x y).
+    exists d s', walk P src (S (length U)) r st0 = Some (d, s') /\ Inv s' /\ prog s' = [] /\
+      (nolate_src -> bad s' = false) /\
+      (bad s' = false -> mlook r s' = Some d /\ forall x y, mlook x s' = Some y -> done s' x y).
   Proof.
     intros Hr.
     assert (Hn : length (unmemo st0) < S (length U)).
     { unfold unmemo. pose proof (filter_len_all (fun x => match mlook x st0 with None => true | Some _ => false end) U). lia. }
     destruct (walk_ok (S (length U)) r st0 Inv_st0 Hr Hn) as [d [s' [E [X [HI M]]]]].
-    exists d, s'. split; auto. split; auto. split; auto.
-    intros x y H. apply X; auto.
+    exists d, s'. split; auto. split; auto. destruct X as [_ [_ [_ [_ [B5 [_ [B7 B8]]]]]]].
+    split; [exact B5|]. split; [intros Hnl; rewrite (B7 Hnl); reflexivity|].
+    intros Hb. split; [apply M; auto|]. intros x y H. apply B8; auto.
   Qed.
 
-  (* the destination heap is closed on [0, nxt) *)
-  Lemma result_closed s' : Inv s' -> (forall x y, mlook x s' = Some y -> done s' x y) ->
+  (* the destination heap is closed on [0, nxt) (direction without late replacement and temporaries) *)
+  Lemma result_closed s' : plain -> Inv s' -> (forall x y, mlook x s' = Some y -> done s' x y) ->
     forall y, In y (seq 0 (nxt s')) -> exists ob, dst s' y = Some ob /\
       forall t ks k, In (t, ks) (oflds ob) -> In k ks -> In k (seq 0 (nxt s')).
   Proof.
-    intros [I1 [I2 [I3 [I4 I5]]]] Hd y Hy. apply in_seq in Hy.
-    destruct (I3 y) as [x Hx]; [lia|]. destruct (Hd _ _ Hx) as [o [fl' [Ho [Hdst Hf]]]].
+    intros Hpl [I1 [I2 [I3 _]]] Hd y Hy. apply in_seq in Hy.
+    destruct (I3 Hpl y) as [x Hx]; [lia|]. destruct (Hd _ _ Hx) as [o [fl' [Ho [Hdst Hf]]]].
     eexists. split; [exact Hdst|]. simpl. intros t ks k Hin Hk.
     destruct (Forall2_In_r _ _ _ _ Hf Hin) as [[t0 l0] [_ [_ Hl]]]. simpl in Hl.
-    destruct (Forall2_In_r _ _ _ _ Hl Hk) as [k0 [_ Hk0]]. unfold krel in Hk0.
+    destruct (Forall2_In_r _ _ _ _ Hl Hk) as [k0 [_ [Hk0 _]]].
     apply I1 in Hk0. apply in_seq. lia.
   Qed.
 
-  (* every class is mapped to itself (no alternative mapping applies to the objects of src) *)
-  Hypothesis Hcmap : forall a o, src a = Some o -> p_cmap P (ocls o) = ocls o.
-
-  Theorem walk_bisim s' : Inv s' -> (forall x y, mlook x s' = Some y -> done s' x y) ->
-    bisim (krel s') src (dst s') /\ functional (krel s') /\ injective (krel s').
+  Theorem walk_bisim_g s' : Inv s' -> (forall x y, mlook x s' = Some y -> done s' x y) ->
+    bisim_g fobj (krel s') src (dst s') /\ functional (krel s') /\ injective (krel s').
   Proof.
-    intros [I1 [I2 [I3 [I4 I5]]]] Hd. repeat split.
+    intros [I1 [I2 _]] Hd. repeat split.
     - intros x y Hxy. destruct (Hd _ _ Hxy) as [o [fl' [Ho [Hdst Hf]]]].
-      exists o, (mkObj (p_cmap P (ocls o)) (oscal o) fl'). split; auto. split; auto.
-      repeat split; simpl; auto. symmetry. eapply Hcmap; eauto.
+      eexists. eexists. split; [exact Ho|]. split; [exact Hdst|]. split.
+      + simpl. now destruct (fobj (ocls o) (oscal o)).
+      + simpl. eapply Forall2_impl; [|exact Hf]. intros g g' [Ht Hks]. split; auto.
+        eapply Forall2_impl; [|exact Hks]. intros k d [H _]. exact H.
     - intros a b b' H1 H2. unfold krel in *. congruence.
     - intros a a' b H1 H2. unfold krel in *. eauto.
   Qed.
 
-  Theorem walk_iso r : Q r ->
-    exists d s', walk P src (S (length U)) r st0 = Some (d, s') /\ Inv s' /\ mlook r s' = Some d /\
-      (forall x y, mlook x s' = Some y -> done s' x y) /\ iso src r (dst s') d.
-  Proof.
-    intros Hr. destruct (walk_total r Hr) as [d [s' [E [HI [M Hd]]]]].
-    exists d, s'. split; auto. split; auto. split; auto. split; auto.
-    destruct (walk_bisim s' HI Hd) as [Hb [Hf Hi]]. exists (krel s'). split; [exact M|]. split; auto.
-  Qed.
   (* A state reused for a second conversion.  With keep-alive every source object converted so far stays allocated,
-     so the objects of the whole history live in ONE heap [src] with pairwise distinct addresses (this is what
-     [keep_memo_keys] below provides to the allocator).  Then the second conversion is as correct as the first, and the
-     first result is still valid. *)
+     so the objects of the whole history live in ONE heap [src] with pairwise distinct addresses.  Then the second
+     conversion is as correct as the first, and the first result is still valid. *)
   Theorem walk_twice r1 r2 : Q r1 -> Q r2 ->
     exists d1 s1 d2 s2,
       walk P src (S (length U)) r1 st0 = Some (d1, s1) /\
       walk P src (S (length U)) r2 s1 = Some (d2, s2) /\ Inv s2 /\
-      iso src r1 (dst s2) d1 /\ iso src r2 (dst s2) d2.
+      (bad s2 = false ->
+         bisim_g fobj (krel s2) src (dst s2) /\ functional (krel s2) /\ injective (krel s2) /\
+         krel s2 r1 d1 /\ krel s2 r2 d2) /\
+      (nolate_src -> bad s2 = false).
   Proof.
-    intros H1 H2. destruct (walk_total r1 H1) as [d1 [s1 [E1 [HI1 [M1 D1]]]]].
+    intros H1 H2. destruct (walk_total r1 H1) as [d1 [s1 [E1 [HI1 [P1 [N1 D1]]]]]].
     assert (Hn : length (unmemo s1) < S (length U)).
     { unfold unmemo. pose proof (filter_len_all (fun x => match mlook x s1 with None => true | Some _ => false end) U). lia. }
     destruct (walk_ok (S (length U)) r2 s1 HI1 H2 Hn) as [d2 [s2 [E2 [X [HI2 M2]]]]].
     exists d1, s1, d2, s2. split; auto. split; auto. split; auto.
-    assert (D2 : forall x y, mlook x s2 = Some y -> done s2 x y).
-    { destruct X as [B1 [B2 [B3 [B4 B5]]]]. intros x y H. destruct (mlook x s1) as [y1|] eqn:E.
-      - pose proof (B2 _ _ E) as H'. rewrite H' in H. inversion H; subst y1.
-        eapply done_mono; eauto. destruct HI1 as [J1 _]. eapply J1; eauto.
-      - eauto. }
-    destruct (walk_bisim s2 HI2 D2) as [Hb [Hf Hi]].
-    split; exists (krel s2); (split; [|split; auto]).
-    - unfold krel. destruct X as [_ [B2 _]]. auto.
-    - exact M2.
+    pose proof (ext_bad_false _ _ X) as Hb1.
+    destruct X as [B1 [B2 [B3 [B4 [B5 [B6 [B7 B8]]]]]]].
+    split.
+    - intros Hb. destruct (D1 (Hb1 Hb)) as [M1 D1'].
+      assert (D2 : forall x y, mlook x s2 = Some y -> done s2 x y).
+      { intros x y H. destruct (mlook x s1) as [y1|] eqn:E.
+        - pose proof (B2 _ _ E) as H'. rewrite H' in H. inversion H; subst y1.
+          eapply done_mono; [apply D1'; exact E| |intros k d; apply krelf_mono; auto|exact B4].
+          destruct HI1 as [J1 _]. eapply J1; eauto.
+        - apply B8; auto. }
+      destruct (walk_bisim_g s2 HI2 D2) as [Hb' [Hf Hi]].
+      split; auto. split; auto. split; auto. split; [apply B2; exact M1|apply (M2 Hb)].
+    - intros Hnl. rewrite (B7 Hnl). apply N1. exact Hnl.
   Qed.
 
   (* the keep-alive invariant, extracted: with p_keep every key of the memo is pinned by the state *)
@@ -317,6 +463,6 @@ Section Proofs.
     walk P src fuel a s = Some (d, s') -> forall x y, mlook x s' = Some y -> In x (keep s').
   Proof.
     intros Hk HI Ha Hn E. destruct (walk_ok fuel a s HI Ha Hn) as [d' [s'' [E' [_ [HI' _]]]]].
-    rewrite E in E'. inversion E'; subst. destruct HI' as [_ [_ [_ [_ [_ J6]]]]]. exact (J6 Hk).
+    rewrite E in E'. inversion E'; subst. destruct HI' as [_ [_ [_ [_ [J6 _]]]]]. exact (J6 Hk).
   Qed.
 End Proofs.
